@@ -1,6 +1,7 @@
 """Real public groups (AeroPoint, ...) set up in a real Problem and executed symbolically through their own wiring."""
 from __future__ import annotations
 
+import os
 import warnings
 
 import numpy as np
@@ -131,6 +132,38 @@ def aerostruct_symbolic(surface, **kw):
     return G
 
 
+_DOC_UNITS = {}
+
+
+def documented_input_units():
+    """units in which the repository's own documentation, examples and tests supply the user-level inputs of the public
+    groups (`add_output("point_masses", ..., units="kg")` and the like): name -> units, kept only where all of them agree on
+    the dimension.  Re-read from the analysed checkout on every run."""
+    import glob
+    import re
+
+    from symoas import dims
+
+    if _DOC_UNITS:
+        return _DOC_UNITS
+    root = os.environ.get("OAS_REPO", "/repo")
+    seen = {}
+    pat = re.compile(r'add_output\(\s*"([A-Za-z_0-9]+)"\s*,[^)]*?units\s*=\s*"([^"]+)"', re.S)
+    for f in glob.glob(os.path.join(root, "openaerostruct", "docs", "**", "*.py"), recursive=True) + glob.glob(os.path.join(root, "openaerostruct", "examples", "**", "*.py"), recursive=True) + \
+            glob.glob(os.path.join(root, "tests", "**", "*.py"), recursive=True):
+        try:
+            txt = open(f).read()
+        except Exception:
+            continue
+        for n_, u_ in pat.findall(txt):
+            seen.setdefault(n_, set()).add(u_)
+    for n_, us in seen.items():
+        ds = {dims.unit_dim(u_) for u_ in us}
+        if len(ds) == 1 and None not in ds and () not in ds:
+            _DOC_UNITS[n_] = sorted(us)[0]
+    return _DOC_UNITS
+
+
 def units_check(rep, prob, label):
     """No connection of the real, set-up model joins a variable that carries units with one that does not (OpenMDAO only
     warns about that and then passes the raw number on, whatever unit the source works in), and all inputs fed by one
@@ -155,6 +188,13 @@ def units_check(rep, prob, label):
     for src, tgts in byivc.items():
         if len({metas.get(t) is None for t in tgts}) > 1:
             bad.append("inputs promoted to one name disagree: " + ", ".join("%s [%s]" % (t, metas.get(t)) for t in tgts))
+    # a model input that the repository's own documentation / examples / tests supply with units is consumed with units
+    doc = documented_input_units()
+    for src, tgts in byivc.items():
+        for t in tgts:
+            short = t.rsplit(".", 1)[-1]
+            if metas.get(t) is None and short in doc:
+                bad.append("%s [%s] -> %s [None]" % ("user input `%s` (documented in %s)" % (short, doc[short]), doc[short], t))
     rep.counts["obligations"] += 1
     rep.groups.append({"case": "units of connected variables: %s" % label, "connections": n, "unit_to_unitless_joins": bad})
     if bad:
